@@ -125,6 +125,9 @@ def xyz_file_to_molecules(filename: str) -> Sequence["Molecule"]:
     n_atoms = _n_atoms_from_first_xyz_line(lines[0])
     molecules = []
 
+    if n_atoms <= 0:
+        raise XYZfileWrongFormat(f"XYZ file ({filename}) had no atoms!")
+
     for i in range(0, len(lines), n_atoms + 2):
         atoms = []
         frame_lines = lines[i + 2 : i + n_atoms + 2]
